@@ -58,6 +58,12 @@ CHECKS = {
  "C04": dict(cat="exploration", tech="multiset reference model with snapshot-at-dispatch semantics compared with per-handler invocation counters at sync markers; must/may classification from call/return ticks under concurrent mutation; dead-state proof; race detector on hSet/hNode",
    text="PRNG histories of registrations, removals and events over 4 names x 3 letter-case variants x both sets, with mutations from inside running handlers (self, first/middle/last/only sibling, same/other name and case); every event's invocation multiset must equal the model's snapshot, in-handler changes must leave the current event's siblings alone and apply later; in a concurrent phase 8 goroutines mutate while events flow and only outcomes fixed by the statement (registered/removed before the event's bytes were handed over) are judged. Held on the histories and interleavings explored.",
    note="Trusted: the background sentinel pins the start of background dispatch; ticks from one atomic clock around every call.", ref="§4 C04"),
+ "C05": dict(cat="exploration", tech="single-call tracker snapshots taken inside foreground and background handlers compared with the specification state sequence S_n..S_R (reference tracker model); receive-log-timed sampling; burst-reading server; GOMAXPROCS sweep; race detector",
+   text="Tracked sessions in which every line has a unique visible effect on the channel snapshot; foreground handlers sample after the next line has been received and must see exactly S_n, background handlers must see some S_k with n <= k <= R. Held on the sessions and schedules explored; evidence counts the foreground samples that could have refuted 'not ahead'.",
+   note="Trusted: GetChannel is atomic under the tracker's lock; the '<- line' log record bounds what can have been applied.", ref="§4 C05"),
+ "C13": dict(cat="exploration", tech="model IRC network simulator (ground truth + client-knowable view) with a reactive server answering the client's own MODE/WHO requests from the wire; tracker compared at sync markers over every name that ever appeared plus the tracker's own listing; invariant monitor under grammar-based arbitrary lines",
+   text="Conformant sessions of hundreds of events (joins, parts, kicks, quits, renames, topics, multi-letter mode changes with arguments, NAMES with highest prefix only, WHO and MODE replies) are played against a tracked client and the tracker is compared with what the protocol has revealed; then arbitrary lines over the same small name universe are fed and the three invariants checked. Held on the sessions explored.",
+   note="Trusted: the simulator's reading of what a server reveals (stated in evidence assumptions); replies reflect ground truth at emission time, views are updated in emission order.", ref="§4 C13"),
 }
 
 NOT_BUILT = "check not built yet in this round (planned, see DESIGN.md §4)"
